@@ -17,6 +17,7 @@ import (
 func init() {
 	register("C19", "CopyOnWriteMap: stores under the lock, snapshots never mutated, one load per read, decisions taken under the lock", func(c *core.Ctx) {
 		CowLockset(c, "R-LOCKSET")
+		CowRMW(c, "R-RMW")
 		CowSnapshot(c, "R-SNAPSHOT")
 		CowCTA(c)
 	})
@@ -283,4 +284,117 @@ func CowCTA(c *core.Ctx) {
 	c.Floor("R-ONE-LOAD", "read-only methods", nRead, 3)
 	c.Floor("R-CTA", "writing methods", nWrite, 4)
 	_ = token.NoPos
+}
+
+// CowRMW: the snapshot a new version is derived from is read under the lock.
+func CowRMW(c *core.Ctx, rule string) {
+	c.Rule(rule, "in a method of CopyOnWriteMap that publishes a new snapshot (Store on the cell), every value read from the cell — by Load on the cell or by a receiver method that returns the snapshot — that flows into the published value is read while the mutex is held: read-modify-write happens inside one critical section")
+	// receiver methods that return what they load from the cell
+	loaders := map[*types.Func]bool{}
+	isCellLoad := func(call *ssa.Call) bool {
+		callee := call.Call.StaticCallee()
+		return callee != nil && callee.Pkg != nil && callee.Pkg.Pkg.Path() == "sync/atomic" && callee.Signature.Recv() != nil && callee.Name() == "Load"
+	}
+	var methods []*ssa.Function
+	for _, fn := range srcFuncs(c) {
+		if fn.Parent() == nil && fn.Signature.Recv() != nil && isCow(fn.Signature.Recv().Type()) {
+			methods = append(methods, fn)
+		}
+	}
+	flows := func(from ssa.Value, to map[ssa.Value]bool) bool {
+		seen := map[ssa.Value]bool{}
+		work := []ssa.Value{from}
+		for len(work) > 0 {
+			v := work[len(work)-1]
+			work = work[:len(work)-1]
+			if seen[v] {
+				continue
+			}
+			seen[v] = true
+			if to[v] {
+				return true
+			}
+			if refs := v.Referrers(); refs != nil {
+				for _, r := range *refs {
+					if rv, ok := r.(ssa.Value); ok {
+						work = append(work, rv)
+					}
+					if st, ok := r.(*ssa.Store); ok && st.Val == v {
+						work = append(work, st.Addr)
+					}
+				}
+			}
+		}
+		return false
+	}
+	for _, fn := range methods {
+		// returns a loaded value?
+		rets := map[ssa.Value]bool{}
+		for _, b := range fn.Blocks {
+			for _, ins := range b.Instrs {
+				if r, ok := ins.(*ssa.Return); ok {
+					for _, v := range r.Results {
+						rets[v] = true
+					}
+				}
+			}
+		}
+		for _, b := range fn.Blocks {
+			for _, ins := range b.Instrs {
+				if call, ok := ins.(*ssa.Call); ok && isCellLoad(call) && flows(call, rets) {
+					if o, ok := fn.Object().(*types.Func); ok {
+						loaders[o.Origin()] = true
+					}
+				}
+			}
+		}
+	}
+	n := 0
+	for _, fn := range methods {
+		lf := analyzeLocks(fn)
+		stored := map[ssa.Value]bool{}
+		hasStore := false
+		for _, b := range fn.Blocks {
+			for _, ins := range b.Instrs {
+				if call, ok := ins.(*ssa.Call); ok {
+					callee := call.Call.StaticCallee()
+					if callee != nil && callee.Pkg != nil && callee.Pkg.Pkg.Path() == "sync/atomic" && callee.Signature.Recv() != nil && (callee.Name() == "Store" || callee.Name() == "Swap" || callee.Name() == "CompareAndSwap") {
+						hasStore = true
+						for _, a := range call.Call.Args[1:] {
+							stored[a] = true
+						}
+					}
+				}
+			}
+		}
+		if !hasStore {
+			continue
+		}
+		name := fnName(fn)
+		k := 0
+		for _, b := range fn.Blocks {
+			for _, ins := range b.Instrs {
+				call, ok := ins.(*ssa.Call)
+				if !ok {
+					continue
+				}
+				isRead := isCellLoad(call)
+				if cf := calleeFunc(&call.Call); cf != nil && loaders[cf] {
+					isRead = true
+				}
+				if !isRead || !flows(call, stored) {
+					continue
+				}
+				k++
+				n++
+				key := name + "/read#" + itoa(k)
+				if len(lf.held[ins]) > 0 {
+					c.Add(rule, key, instrPos(ins), core.Discharged, "snapshot read under {"+lf.held[ins].String()+"}")
+				} else {
+					c.Add(rule, key, instrPos(ins), core.Violated, "the snapshot that the published value is derived from is read before the mutex is taken: two writers can start from the same snapshot and the second Store discards the first writer's update (lost update; ComputeIfAbsent callers see different values)")
+				}
+			}
+		}
+	}
+	c.Floor(rule, "snapshot reads feeding a Store", n, 1)
 }
